@@ -24,7 +24,7 @@ from vf.checks.c14 import symbolic_sort
 
 PID = "C05"
 
-KINDS = ["assign", "loop1", "loop2", "nop", "yield", "fail"]
+KINDS = ["assign", "loop1", "loop2", "loop3", "loop4", "nop", "yield", "fail"]
 GUARDS = ["T", "c0", "!c0", "c0&c1", "c1&!c0", "c2"]
 
 
@@ -55,6 +55,15 @@ def build_stmt(i, kind, guard, deps):
     if kind == "loop2":
         return L.Assign(assignee="arr", assignee_subscript=(Variable("i") + Variable("j"),), expression=Variable("j"),
                         loops=[("i", 1, 3), ("j", Variable("lo"), Variable("i"))], id=sid, depends_on=deps, condition=cond)
+    if kind == "loop3":
+        # triangular: each bound names the counters of the loops around it
+        return L.Assign(assignee="arr", assignee_subscript=(Variable("k"),), expression=Variable("i") + Variable("j"),
+                        loops=[("i", 0, Variable("n%d" % i)), ("j", 0, Variable("i") + 1), ("k", Variable("j"), Variable("i") + Variable("j"))],
+                        id=sid, depends_on=deps, condition=cond)
+    if kind == "loop4":
+        return L.Assign(assignee="arr", assignee_subscript=(Variable("l"),), expression=Variable("k"),
+                        loops=[("i", 0, 2), ("j", Variable("i"), 3), ("k", 0, Variable("j")), ("l", Variable("k"), Variable("i") + Variable("k"))],
+                        id=sid, depends_on=deps, condition=cond)
     if kind == "nop":
         return L.Nop(id=sid, depends_on=deps, condition=cond)
     if kind == "yield":
